@@ -478,7 +478,9 @@ func PromoteOptionsToConstructor(selector Selector, optionNames []string) Rewrit
 				arg.Type.Nullable = false
 
 				builders[i].Constructor.Args = append(builders[i].Constructor.Args, arg)
-				builders[i].Constructor.Assignments = append(builders[i].Constructor.Assignments, opt.Assignments[0])
+				// the constructor gets its own copy: later option rules must not
+				// write through to it
+				builders[i].Constructor.Assignments = append(builders[i].Constructor.Assignments, opt.Assignments[0].DeepCopy())
 
 				builders[i].AddToVeneerTrail(fmt.Sprintf("PromoteOptionsToConstructor[%s]", optName))
 			}
